@@ -103,6 +103,21 @@ PROPS = {
         "assumptions": ["decimal -> f64 -> decimal ({:.N} printing) is the identity when integer digits + printed decimals <= 15; outside that region only the oracle speaks (finding class f64-precision)",
                         "str::parse::<f64> on a plain decimal returns the correctly rounded value"],
     },
+    "C17": {
+        "streams": ["c17"],
+        "driver": True,
+        "extractors": ["T5"],
+        "instances": lambda gen: sum(len(c) for c in gen.get("tables", {}).get("classify", {}).get("chains", {}).values()) + 6,
+        "rule": "MT103, MT202, MT205 and MT199 (as a type without classification) x 22 field-72 lines (code words, look-alikes /RJT/ /RET/ "
+                "/RETURN/, lower case, words without slashes, words inside other lines) x 10 user references (tag 108) x 7 validation flags "
+                "(tag 119), plus random multi-line combinations with sequence-B / 23B / 56a variants; the four SwiftMessage predicates and the "
+                "plugin's `method` compared with an independent statement of the rules and with the compiled Lean model; distinct = all "
+                "parameters; non-trivial = a code word or look-alike present",
+        "modelled": "SwiftMessage::has_reject_codes/has_return_codes/is_cover_message, the MT103/202/205 body predicates over regenerated "
+                    "word tables, and the plugin's method chains (regenerated, T5); is_stp_compliant is an input (C04)",
+        "trusted_base": [KERNEL, TRANSLATOR, HARNESS, "hand model SwiftMT/Classify.lean of how the predicates combine the tables"],
+        "assumptions": ["user references are ASCII (to_uppercase modelled on ASCII)"],
+    },
     "C09": {
         "streams": ["c09"],
         "driver": False,
